@@ -57,7 +57,11 @@ CHECKS = {
              "program point: (i) real mypy's reveal_type / type map / reachability / error positions must equal Gamma (binding; a mismatch is "
              "model drift, exit 2 above 1 %), (ii) CPython runs every accepted function on every argument class and every tree of opaque "
              "condition outcomes with a recording probe (the oracle), (iii) single-edit ill-typed perturbations that fail at run time must be "
-             "rejected by mypy. Five spec-level mutants are rejected; the finding config reproduces the (now repaired) truthiness-join defect.",
+             "rejected by mypy. Five spec-level mutants are rejected; the finding config reproduces the (now repaired) truthiness-join defect. Two more specified fragments with the same "
+             "oracle and binding: SeqMatch.tla (match statements with sequence patterns over fixed / variadic / homogeneous tuples, lists and unions of them: PEP 634 "
+             "matching specified exactly and bound to CPython, the static rule transcribed from checkpattern.py; invariants ReachSound, CaptureSound, FixedExact) and "
+             "Override.tla (attribute / read-only / settable property overrides across hierarchies of 3-4 classes with C3 MRO; invariant Sound; readers and writers "
+             "through every base-typed reference executed under CPython); their spec-level mutants (off-by-one star length, direct bases only, ...) are rejected.",
         design_ref="DESIGN.md 5.C01, notes/C01.md",
         note="flow-sensitive narrowing / join / call-compatibility core only: classes with final leaves, unions with None, isinstance / is None / "
              "truthiness / class-pattern narrowing, assignment, if/else, while, break/continue/return, call, method call; exhaustive to 3 statements "
